@@ -20,3 +20,9 @@ from harness.mm_gen import (  # noqa: F401
     Features, Hierarchy, RULES, dag_shapes, enumerate_hierarchies, hierarchy_to_mm, is_safe_name, legal_orders,
     mutants, random_mm, reserved_names, safe_pattern, sample_match,
 )
+from harness.mm_inst import *  # noqa: F401,F403
+from harness.mm_inst import (  # noqa: F401
+    Built, Checked, Env, Hint, Impossible, check_invariants, duplicate_key_json_text, eval_invariant_python,
+    hints_for_class, hints_for_type, invariant_env, invariant_source, is_exception, mutate_jsonable, mutate_xml,
+    random_instance, random_value,
+)
